@@ -621,7 +621,9 @@ impl Connection {
             _ => 0,
         };
         let token = match self.state {
-            State::Unconnected => unreachable!(),
+            // Rejecting a connection that was never accepted: no token has
+            // been agreed on yet, and the connecting peer doesn't check it.
+            State::Unconnected => None,
             // Signal support for the token protocol.
             State::Connecting => Some(TOKEN_NONE),
             State::Pending(ref pending) => pending.token,
